@@ -77,13 +77,27 @@ Definition setup (ps : list port) (t : table) : table * bool :=
   let '(t1, ok) := restore [] t (setup_batch ps) in
   if ok then ensure_jumps ps t1 else (t, false).
 
-(** CleanPortMapping: one DeleteRule per port, then one batch flushing and deleting the ports' chains *)
+(** CleanPortMapping as it was: one DeleteRule per port, then one batch flushing and deleting the ports'
+    chains.  DeleteRule's `-C KUBE-HOSTPORTS ... -j KUBE-HP-x` is an ERROR when chain KUBE-HP-x does not
+    exist, so this fails - on every retry - for ports whose chains are gone (F17). *)
 Definition clean_batch (ps : list port) : list line :=
   map (fun p => LChain (cname p)) ps ++ map (fun p => LDelete (cname p)) ps.
 
-Definition clean (ps : list port) (t : table) : table * bool :=
+Definition clean_old (ps : list port) (t : table) : table * bool :=
   let '(t1, ok) := delete_jumps ps t in
   if ok then restore [] t1 (clean_batch ps) else (t1, false).
+
+(** CleanPortMapping (repaired): first one batch with just the ports' chain lines (a missing chain is
+    created, an existing one flushed), then one DeleteRule per port, then the batch flushing and deleting
+    the chains.  A failing step returns the error at once. *)
+Definition clean_pre_batch (ps : list port) : list line := map (fun p => LChain (cname p)) ps.
+
+Definition clean (ps : list port) (t : table) : table * bool :=
+  let '(t0, ok0) := restore [] t (clean_pre_batch ps) in
+  if ok0 then
+    let '(t1, ok) := delete_jumps ps t0 in
+    if ok then restore [] t1 (clean_batch ps) else (t1, false)
+  else (t, false).
 
 (** EnsureBasicRule (NAT part): KUBE-HOSTPORTS exists and OUTPUT / PREROUTING jump to it *)
 Definition ensure_basic (t : table) : table * bool :=
